@@ -124,7 +124,8 @@ class C20:
                                         ('cli_interrupt', 1.2 if faulty else 0)])
             if kind == 'load':
                 p = rng.choice(inputs)[0] if rng.random() < 0.93 else posixpath.join(WORK, 'missing.krn')
-                ops.append({'op': 'load', 'path': as_given(p), 'pathtype': rng.choice(['str', 'Path']), 'raise_on_errors': rng.random() < 0.25})
+                ops.append({'op': 'load', 'path': as_given(p), 'pathtype': rng.choice(['str', 'Path']), 'raise_on_errors': rng.random() < 0.25,
+                            'deprecated_api': rng.random() < 0.15})
             elif kind == 'dump':
                 tdir = rng.choice(['out', 'out/new', 'out/a/b/c', 'in', '', 'in/sub'])
                 target = posixpath.join(WORK, tdir, rng.choice(['o', 'res', 'x.y']) + rng.choice(['.krn', '.ekrn', '.txt']))
@@ -445,7 +446,10 @@ class C20:
                     arg = Path(op['path']) if op['pathtype'] == 'Path' else op['path']
                     data = fs.get(p)
                     try:
-                        d, e = kp.load(arg, raise_on_errors=op['raise_on_errors'])
+                        if op.get('deprecated_api'):
+                            d, e = kp.read(arg, strict=op['raise_on_errors'])        # deprecated alias of load
+                        else:
+                            d, e = kp.load(arg, raise_on_errors=op['raise_on_errors'])
                         got = ('ok', d, e)
                     except Exception as ex:
                         got = ('exc', type(ex).__name__)
